@@ -10,7 +10,8 @@ RULE = ('cases = (entry point, record, dt, target_dt, even); entry points interp
         'and pairs built to put dt/target or target/dt within 0..3 ulps of an integer on either side; even in {True, False}; '
         'records: integer series scaled by 2^-s with power-of-two factors (exact domain, tolerance 0: every float operation of the code is exact) and arbitrary float records / factors (rtol 1e-10 of max|v|); '
         'lengths from 2*max(1, target/dt) up to 300 (quick) / 2000 (thorough) for value-carrying cases, up to 5000 for scalar cases; returned step and output length compared bit-for-bit with the binary64 kernel on every case; '
-        'non-trivial = factor != 1 and the record is not constant; Fourier variant: on-grid sinusoid sums below both Nyquist frequencies, outputs enclosed by interval-arithmetic proofs (1e-9)')
+        'non-trivial = factor != 1 and the record is not constant; Fourier variant: on-grid sinusoid sums below both Nyquist frequencies, outputs enclosed by interval-arithmetic proofs (1e-9); '
+        'refinements of even-length records additionally with the alternation a*cos(pi t/dt) (harmonic npts/2 = the old Nyquist frequency, below the new one)')
 TRUSTED = [
     'Coq 8.16.1 kernel + vm_compute; Flocq 4.1.0 binary64 (Bits.b64_div / b64_mult, binary_normalize) as the executable float kernel',
     'hand-written model coq/model/M_timestep.v; tie = correspondence of this run (model/K_C14.v): returned step and length bit-exact against the binary64 chain, values against the Q-model of np.interp',
@@ -243,15 +244,19 @@ def bandlimited_check(rep, rng, tier):
     interval tactic inside Coq (|g(i' new_dt) - returned| <= 1e-9, g evaluated on exact rationals; also |g(i dt) - x[i]| <= 1e-12 for
     the shipped input). Strict whenever factor*npts is an integer (incl. even-trimmed outputs: the code resamples to factor*npts
     and cuts afterwards); the returned length must then be factor*npts (2*int(./2) when even). When m does not divide npts no
-    periodic resampling onto the grid exists: those cases are measured and recorded only."""
+    periodic resampling onto the grid exists: those cases are measured and recorded only.
+    Extra refinement cases (even npts) add the harmonic npts/2, a*cos(pi i): energy exactly at the old Nyquist frequency, which is below
+    the new one; scipy reproduces g(t) = a cos(pi t/dt) (the unpaired bin is split over +-npts/2), so the same 1e-9 enclosures apply."""
     import eqsig
     from eqsig.fns.time_step import resample_to_approx_dt
     ncases = 16 if tier == 'quick' else 120
     goals = []   # (id, coq_prop, case_index, kind, detail)
     metas = []
-    for it in range(ncases + ncases // 2):
-        warped_wanted = it >= ncases
-        kind = rng.choice(['same', 'ref', 'ref', 'dec', 'dec'])
+    nnyq = 6 if tier == 'quick' else 30      # refinements of even-length records that carry energy exactly at the OLD Nyquist frequency
+    for it in range(ncases + ncases // 2 + nnyq):
+        warped_wanted = ncases <= it < ncases + ncases // 2
+        nyq_wanted = it >= ncases + ncases // 2
+        kind = rng.choice(['same', 'ref', 'ref', 'dec', 'dec']) if not nyq_wanted else 'ref'
         dt = rng.choice([0.01, 0.005, 0.02, 0.004, 0.25, 1.0, 0.0078125])
         even = rng.random() < 0.5
         if kind == 'same':
@@ -260,7 +265,7 @@ def bandlimited_check(rep, rng, tier):
         elif kind == 'ref':
             k, m = rng.randint(2, 5), 1
             tg = dt / (k - rng.choice([0.0, 0.3, 0.7]))
-            n = rng.randint(8, 40)
+            n = rng.randint(8, 40) if not nyq_wanted else 2 * rng.randint(2, 20)
         else:
             k, m = 1, rng.randint(2, 4)
             tg = dt * (m + rng.choice([0.0, 0.3, 0.7]))
@@ -274,9 +279,18 @@ def bandlimited_check(rep, rng, tier):
         js = sorted(rng.sample(range(1, max(2, nyq - (1 if warped_wanted else 0))), min(rng.randint(1, 3), max(1, nyq - 2))))
         terms = [(j, rng.randint(-16, 16) / 8.0, rng.randint(-16, 16) / 8.0) for j in js]
         c0 = rng.randint(-8, 8) / 8.0
+        if nyq_wanted:
+            # harmonic n/2: the alternation +a, -a, ... = samples of g(t) = a cos(pi t/dt); below the NEW Nyquist frequency for k >= 2,
+            # so it belongs to the admissible band (its sine partner vanishes on the old grid: b = 0). The other harmonics are kept
+            # (possibly none: the pure alternation) so that the record is a generic band-limited one
+            if it % 3 == 0:
+                terms = []
+            terms = terms + [(n // 2, rng.choice([-1, 1]) * rng.randint(1, 16) / 8.0, 0.0)]
         x = np.array([c0 + sum(a * math.cos(2 * math.pi * j * i / n) + b * math.sin(2 * math.pi * j * i / n) for j, a, b in terms) for i in range(n)])
         site = 'resample_to_approx_dt[band-limited]'
         args = {'npts': n, 'dt': dt, 'target_dt': tg, 'even': even, 'signal': {'c0': c0, 'terms(j,a,b)': terms}, 'values': list(x)}
+        if nyq_wanted:
+            site = 'resample_to_approx_dt[band-limited, energy at the old Nyquist frequency]'
         r = guarded(lambda: (lambda s_: (np.asarray(s_.values, dtype=float), float(s_.dt)))(resample_to_approx_dt(eqsig.AccSignal(x.copy(), dt), target_dt=tg, even=even)))
         if isinstance(r, ImplError):
             rep.violation(site, {'function': site, 'args': args, 'impl_error': str(r)})
